@@ -352,12 +352,12 @@ def run_one_norm(qbp, flavour, tn, o, n, init_arg, site_tags=None, tol=TOL_RUN, 
 
 
 class RollingStop(Exception):
-    """run() set converged=True although the last maximal message change is not below tol (the rolling-mean
-    stopping rule fired): reported under its own contract (see check2)"""
+    """run() set converged=True although the last maximal message change is large (the rolling-mean stopping rule
+    fired): reported under its own contract (see check2)"""
 
 
-ROLLING_CONTRACT = ("*BP.run(): converged=True is reported only when the last maximal message change is below tol "
-                    "(damped runs on acyclic networks)")
+ROLLING_CONTRACT = ("*BP.run(): converged=True is not reported while the maximal message change is still large "
+                    "(>= 1e-6, single precision 1e-3; damped runs on acyclic networks)")
 
 
 def check_converged(info, its, tol=TOL_RUN):
@@ -366,10 +366,13 @@ def check_converged(info, its, tol=TOL_RUN):
                 f"(max message change {info.get('max_mdiff')})")
     if "converged_attr" in info and not info["converged_attr"]:
         return "info['converged'] is True but bp.converged is False"
+    # the documented rolling-mean rule may end a run on a plateau slightly above tol; that is judged by the value.  A
+    # stop while the messages still change at the level of the value tolerance is reported on its own
     md = info.get("max_mdiff")
-    if md is not None and float(md) >= tol:
+    big = 1e-6 if tol < 1e-6 else 1e-3
+    if md is not None and float(md) >= big:
         raise RollingStop(f"converged=True after {info.get('iterations')} iterations with max message change "
-                          f"{float(md):.3g} >= tol {tol:g} (rolling mean of differences "
+                          f"{float(md):.3g} (tol {tol:g}, rolling mean of differences "
                           f"{info.get('rolling_abs_mean_diff')})")
     return None
 
@@ -380,6 +383,10 @@ def _guard(thunk, mode):
             r = thunk()
         except RollingStop as e:
             return str(e) if mode == "rolling" else None
+        except Exception:
+            if mode == "rolling":
+                return None  # reported by the main contract
+            raise
         return None if mode == "rolling" else r
 
     return f
@@ -1544,9 +1551,9 @@ def combine(cx):
                                            exponent=e0, power=power)
             if strip and not (isinstance(r, tuple) and len(r) == 2):
                 return f"strip_exponent=True did not return a pair: {r!r}"
-            got = as_value(r)
             if zero:
-                return None if got == 0 else f"a zero value with check_zero=True gave {got}"
+                isz = (r[0] == 0) if strip else (r == 0)
+                return None if isz else f"a zero value with check_zero=True gave {r}"
             logmag = (e0 or 0.0) + sum(p * np.log10(abs(x)) for x, p in zip(xs, ps))
             phase = complex(1.0 if m0 is None else m0)
             for x, p in zip(xs, ps):
@@ -1560,6 +1567,7 @@ def combine(cx):
                 ok = abs(complex(m) - phase) <= 1e-10 * abs(phase) and abs(float(e) - logmag) <= 1e-9 * abs(logmag)
                 return None if ok else f"(mantissa, exponent) = {r}, reference ({phase}, {logmag})"
             want = phase * 10.0 ** logmag
+            got = as_value(r)
             if abs(got - want) > 1e-10 * abs(want):
                 return f"got {got}, reference {want}"
             return None
